@@ -38,7 +38,7 @@ MANIFEST = {
     "design_ref": "5/C14",
 }
 MODULES = ["PrimaiteModel.Lemmas.HealthEff", "PrimaiteModel.Props.C14", "PrimaiteModel.Props.C14Gen", "PrimaiteModel.Props.C14Dyn",
-           "PrimaiteModel.Props.C14Inv"]
+           "PrimaiteModel.Props.C14Inv", "PrimaiteModel.Props.C14Life"]
 EXE = "drv_c14"
 
 
